@@ -30,6 +30,7 @@ inductive PNum where
 /-- vlsir.ParamValue -/
 inductive PVal where
   | literal (s : String)
+  | decLiteral (d : Dec)         -- `literal=str(Decimal)`
   | prefixed (n : PNum) (prefixName : String)
   | int64 (i : Int)
   | double (repr : String)
@@ -73,7 +74,7 @@ def exportParamValue : PyVal → Option (Option PVal)
   | .enumOther => none
   | .literal s => some (some (.literal s))
   | .prefixed p => (exportPrefixed p).map some
-  | .decimal d => some (some (.prefixed (.string d) "<decimal-as-literal>"))  -- see `decimalLiteral`
+  | .decimal d => some (some (.decLiteral d))
   | .int i => if inInt64 i then some (some (.int64 i)) else none
   | .float r => some (some (.double r))
   | .other => none
